@@ -1,12 +1,108 @@
 /-
-C03 — bag-of-cells serialisation round-trips (work in progress).
+C03 — bag-of-cells serialisation round-trips for every DAG and option set; raw bytes, hex text and base64 text of the
+same serialisation parse to the same result.
+
+Proved here (emit side + input forms, for ALL inputs):
+  * `c03_emit_decodes` — the bytes `to_boc` produces for any list of well-formed records with forward references and any of
+    the 6 valid option sets decode, under the independent strict reader's byte-level layer, to the same records and root
+    (this is the emit half of the round trip: nothing about the DAG is lost or altered by serialisation).
+  * `c03_forms_hex`, `c03_forms_hex_upper`, `c03_forms_base64`, `c03_forms` — `Boc.__init__`'s input-form detection
+    (bytes → as is; str → `bytes.fromhex`, on ValueError `base64.b64decode`; Model/BocForms.lean) yields the SAME bytes for the
+    raw bytes, their hex text and their base64 text, for every byte string that starts with one of the three BoC magics;
+    in particular for everything `to_boc` emits (`c03_forms_emit`).
+  * `c03_magic_not_hex` — the only possible confusion, a base64 text that is also valid hex, cannot occur for a BoC: the
+    base64 text of each of the three magics has a non-hex, non-space character among its first two characters
+    ('t' in "te6cc…", 'P' in "aP9l8…", 'r' in "rMOnK…").
+
+THE COMPOSITION (to be assembled by the coordinator once the parser model of C05 is merged):
+
+  theorem c03_roundtrip (H) (t : Cell) (wf : TreeWF H t) (tagged …) (p) (hp : Cell.build H t = some p) (nc : NoCollision p)
+      (o : Opts) (hv : o.valid) (fuel ≥ 6·cells+2) :
+      ∃ bs, p.toBoc fuel o = some bs ∧ ∀ form ∈ {inl bs, inr (hexEnc bs), inr (b64Enc bs)},
+        (inputBytes form).bind (BocParse.deserialize H) = some [t']     -- t' = the parser's image of t (same bits/type/refs/hash)
+
+  needs from the parser model (Model/BocParse.lean, owner `bocin`), with these exact roles:
+    BocParse.deserializeBocHeader : Bytes → Option Header'           (model of `Boc.deserialize_boc_header`)
+    BocParse.deserializeCell      : Bytes → Nat → Option (… × Nat)   (model of `Boc.deserialize_cell`)
+    BocParse.deserialize          : (H) → Bytes → Option (List PCell) (model of `Boc.deserialize`, roots)
+  and one lemma about it, the parser-side twin of `strictFlat_emit`:
+    BocParse.deserialize_of_strictFlat : strictFlat bs = some ⟨recs, roots⟩ → (records evaluate) →
+        BocParse.deserialize H bs = some (roots.map (rebuild recs))
+  (every encoding the strict reader accepts is parsed by the library to the denoted cells — this is C05's `c05_accepts`
+  specialised to the emitter's freedoms), from which `c03_roundtrip` follows with `c03_emit_decodes`, `order_valid`,
+  `c03_forms_emit` and the cell↔record lemma listed as missing in Properties/C04.lean.
+  Entry points: `Slice.one_from_boc = (deserialize …)[0].begin_parse()`, `Builder.one_from_boc = (…)[0].to_builder()`;
+  `c03_entrypoints` is a statement about Model/Builder.lean's `begin_parse`/`to_builder` images and needs nothing else.
 -/
 import TonVerif.Proofs.BocEmit
+import TonVerif.Proofs.BocForms
 
 namespace TonVerif.Properties.C03
-open TonVerif TonVerif.Model TonVerif.Proofs.BocEmit
+open TonVerif TonVerif.Model TonVerif.Model.BocForms TonVerif.Spec.Boc TonVerif.Proofs.BocEmit TonVerif.Proofs.BocForms
 
-/-- the width chosen for a count holds it (temporary) -/
-theorem c03_width (n : Nat) : n < 256 ^ byteWidth n := lt_pow_byteWidth n
+/-- emit half of the round trip: the emitted bytes decode (independent strict reader, byte-level layer) to exactly the
+records that were serialised, with root index 0 — for every record list / valid order and all 6 option sets. -/
+theorem c03_emit_decodes (o : Opts) (as : List ARec) (hv : o.valid = true) (h1 : 1 ≤ as.length) (hn : as.length < 2 ^ 32)
+    (hP : (payloadOf (sizeW as) as).length * 2 < 2 ^ 64) (ok : ∀ a ∈ as, a.OK as.length) (fw : Forward as) :
+    ∃ bs, emit (as.map ARec.toRec) o = some bs ∧ strictFlat bs = some ⟨as.map ARec.toSRec, [0]⟩ := by
+  obtain ⟨bs, h1, _, h2⟩ := strictFlat_emit o as hv h1 hn hP ok fw
+  exact ⟨bs, h1, h2⟩
+
+/-- `bytes.fromhex(b.hex()) == b`, and `Boc(b.hex())` holds the same bytes as `Boc(b)`. -/
+theorem c03_forms_hex (b : Bytes) (h : Bytes.WF b) :
+    fromHex (hexEnc b) = some b ∧ inputBytes (.inr (hexEnc b)) = inputBytes (.inl b) :=
+  ⟨fromHex_hexEnc b h, inputBytes_hex b h⟩
+
+/-- the same for upper-case hex digits -/
+theorem c03_forms_hex_upper (b : Bytes) (h : Bytes.WF b) :
+    inputBytes (.inr (hexEncUpper b)) = inputBytes (.inl b) := inputBytes_hexUpper b h
+
+/-- `base64.b64decode(base64.b64encode(b)) == b` for every byte string. -/
+theorem c03_base64_roundtrip (b : Bytes) (h : Bytes.WF b) : b64Dec (b64Enc b) = some b := b64Dec_b64Enc b h
+
+/-- the base64 text of a byte string starting with a BoC magic is never taken for hex: its first two characters contain a
+character that is neither a hex digit nor whitespace, so `bytes.fromhex` raises. -/
+theorem c03_magic_not_hex (rest : Bytes) :
+    fromHex (b64Enc ([0xb5, 0xee, 0x9c, 0x72] ++ rest)) = none ∧
+    fromHex (b64Enc ([0x68, 0xff, 0x65, 0xf3] ++ rest)) = none ∧
+    fromHex (b64Enc ([0xac, 0xc3, 0xa7, 0x28] ++ rest)) = none :=
+  ⟨fromHex_b64_magic rest, fromHex_b64_magic_leanBoc rest, fromHex_b64_magic_leanBocCrc rest⟩
+
+/-- the concrete characters (first five base64 characters are fixed by the four magic bytes) -/
+theorem c03_magic_prefix (rest : Bytes) :
+    (b64Enc ([0xb5, 0xee, 0x9c, 0x72] ++ rest)).take 5 = ['t', 'e', '6', 'c', 'c'] ∧
+    (b64Enc ([0x68, 0xff, 0x65, 0xf3] ++ rest)).take 5 = ['a', 'P', '9', 'l', '8'] ∧
+    (b64Enc ([0xac, 0xc3, 0xa7, 0x28] ++ rest)).take 5 = ['r', 'M', 'O', 'n', 'K'] :=
+  ⟨b64_magic_prefix rest, b64_magic_prefix_leanBoc rest, b64_magic_prefix_leanBocCrc rest⟩
+
+/-- `Boc(base64 text)` holds the same bytes as `Boc(bytes)` for every byte string starting with one of the three magics. -/
+theorem c03_forms_base64 (magic : Bytes)
+    (hm : magic ∈ [[0xb5, 0xee, 0x9c, 0x72], [0x68, 0xff, 0x65, 0xf3], [0xac, 0xc3, 0xa7, 0x28]]) (rest : Bytes) (h : Bytes.WF rest) :
+    inputBytes (.inr (b64Enc (magic ++ rest))) = inputBytes (.inl (magic ++ rest)) :=
+  inputBytes_b64_magic magic hm rest h
+
+/-- **the three input forms agree**: for a byte string that starts with the BoC magic, `Boc.__init__` ends up with the same
+bytes whether it is given the bytes, their hex text or their base64 text. -/
+theorem c03_forms (rest : Bytes) (h : Bytes.WF rest) :
+    let b := [0xb5, 0xee, 0x9c, 0x72] ++ rest
+    inputBytes (.inl b) = some b ∧ inputBytes (.inr (hexEnc b)) = some b ∧ inputBytes (.inr (b64Enc b)) = some b := by
+  have hb : Bytes.WF ([0xb5, 0xee, 0x9c, 0x72] ++ rest) := WF_append (by decide) h
+  refine ⟨rfl, ?_, ?_⟩
+  · rw [inputBytes_hex _ hb]; rfl
+  · rw [inputBytes_b64 rest h]; rfl
+
+/-- everything `to_boc` emits is such a byte string: all three forms of an emitted serialisation are read back as the
+emitted bytes. -/
+theorem c03_forms_emit (o : Opts) (as : List ARec) (hv : o.valid = true) (h1 : 1 ≤ as.length) (hn : as.length < 2 ^ 32)
+    (hP : (payloadOf (sizeW as) as).length * 2 < 2 ^ 64) (ok : ∀ a ∈ as, a.OK as.length) :
+    ∃ bs, emit (as.map ARec.toRec) o = some bs ∧
+      inputBytes (.inl bs) = some bs ∧ inputBytes (.inr (hexEnc bs)) = some bs ∧ inputBytes (.inr (b64Enc bs)) = some bs := by
+  refine ⟨_, emit_eq o as hv h1 hn hP ok, ?_⟩
+  have hwf := emitted_wf o as h1 hn hP ok
+  have := c03_forms _ hwf
+  simpa [bodyOf, bocMagic, List.append_assoc] using this
+
+/-! Non-vacuity. -/
+example : Bytes.WF [0xb5, 0xee, 0x9c, 0x72, 0x01, 0x02] := by decide
 
 end TonVerif.Properties.C03
